@@ -232,6 +232,55 @@ def _is_symbol_prefix_plus_symbol(s):
     return False
 
 
+def part_define_export(ctx, shard):
+    """define_unit on the default registry also exports an attribute `unyt.<symbol>`: attribute and string denote one unit
+    (scale, dimension AND zero point), for every form of the definition"""
+    from unyt.unit_object import define_unit
+
+    for variant in shard:
+        world.reset_world()
+        try:
+            if variant == "tuple":
+                define_unit("zork", (3.0, "m"))
+            elif variant == "quantity":
+                define_unit("zork", unyt.unyt_quantity(3.0, "km"))
+            elif variant == "offset":
+                define_unit("zork", (1.25, "K"), offset=-218.52)
+            elif variant == "offset-prefixable":
+                define_unit("zork", (0.5, "K"), offset=100.0, prefixable=True)
+            elif variant == "prefixable":
+                define_unit("zork", (2.0, "s"), prefixable=True)
+        except Exception as e:  # noqa: BLE001
+            ctx.count("define_refused:" + type(e).__name__)
+            world.reset_world()
+            continue
+        for name in ("zork",) + (("kzork", "mzork") if "prefixable" in variant else ()):
+            ctx.count("evaluations")
+            ctx.decided(("define-export", variant, name))
+            s_ = real(name)
+            case = {"part": "define-export", "variant": variant, "name": name}
+            attr = getattr(unyt, name, None)
+            if name == "zork" and not isinstance(attr, Unit):
+                ctx.violation(f"C14|define-export|variant={variant}|mode=no-attribute-exported", case, "Unit", repr(attr))
+                continue
+            if s_[0] != "ok":
+                ctx.violation(f"C14|define-export|variant={variant}|mode=defined-name-not-usable-as-string", case, "resolves", s_)
+                continue
+            if isinstance(attr, Unit):
+                a = ("ok", float(attr.base_value), dim_of(attr.dimensions), float(attr.base_offset))
+                if a[1:4] != s_[1:4]:
+                    ctx.violation(f"C14|define-export|variant={variant}|mode=attribute-differs-from-string", case, s_[1:4], a[1:4])
+                # conversions by name and through the attribute agree
+                try:
+                    q = unyt.unyt_quantity(300.0, Unit(name).get_base_equivalent("mks"))
+                    v1, v2 = float(q.to(name).d), float(q.to(attr).d)
+                    if abs(v1 - v2) > 1e-12 * max(abs(v1), 1.0):
+                        ctx.violation(f"C14|define-export|variant={variant}|mode=conversion-by-attribute-differs-from-by-name", case, v1, v2)
+                except Exception:  # noqa: BLE001
+                    ctx.count("define_export_conversion_refused")
+    world.reset_world()
+
+
 def part_alias_reference(ctx):
     """the library's alias table against the independent reference (mc/ref/aliases.py), in both directions, and every
     reference alias resolved against the definition of the symbol the REFERENCE gives for it"""
@@ -566,6 +615,7 @@ def run(ctx):
     akeys = sorted(default_unit_name_alternatives)
     harness.pmap(ctx, part_alias_table, chunks(akeys, 20))
     part_alias_reference(ctx)
+    harness.pmap(ctx, part_define_export, [["tuple"], ["quantity"], ["offset"], ["offset-prefixable"], ["prefixable"]])
     bnames = sorted(n for n in exposed_names() if not n.isascii()) + sorted(n for n in exposed_names() if n.isascii())[::7]
     harness.pmap(ctx, part_bytes, chunks(bnames, 100))
     harness.pmap(ctx, part_double, [[S] for S in DOUBLE_BASES])
@@ -606,6 +656,8 @@ def replay(case):
         part_attrs(ctx, [case["name"]])
     elif case["part"] == "unicode":
         part_unicode(ctx, [tuple(case["pair"])])
+    elif case["part"] == "define-export":
+        part_define_export(ctx, [case["variant"]])
     elif case["part"] == "bytes":
         part_bytes(ctx, [case["name"]])
     elif case["part"] == "alias-reference":
